@@ -221,7 +221,7 @@ pub fn check_generation<'b>(
                         path,
                     );
                 }
-                if !captures_only && path.is_empty() && cx.unsound.len() < 8 {
+                if !captures_only && path.len() < 3 && cx.unsound.len() < 8 {
                     cx.unsound.push((d, s.clone()));
                 }
             }
@@ -316,6 +316,41 @@ fn capture_chain(cx: &mut Ctx, b: &BoardState, p: &Pos, depth: usize, budget: &m
 }
 
 /// One game: generator chain + (optionally) text applier side by side with the referee.
+/// C01 below a wrong successor: generate from the engine's own (unsound) board `s`, judge the
+/// move set against the real position `q`, and keep following successors that are still unsound.
+fn follow_unsound(cx: &mut Ctx, s: &BoardState, q: &Pos, ply: usize, path: &mut Vec<Mv>, budget: &mut u32) {
+    if *budget == 0 {
+        return;
+    }
+    *budget -= 1;
+    cx.acc.count("c01_generations_from_unsound_own_successor");
+    let z2 = cx.z;
+    let r = std::panic::catch_unwind(std::panic::AssertUnwindSafe(|| generate_moves(s, MoveGenerationMode::AllMoves, z2)));
+    match r {
+        Ok(s2) => {
+            let before = cx.acc.violations.len();
+            cx.unsound.clear();
+            check_generation(cx, s, q, &s2, false, ply, path);
+            // mark the class: these only arise below a wrong successor
+            for v in cx.acc.violations.iter_mut().skip(before) {
+                if !v.sig.ends_with("/from-own-successor") {
+                    v.sig.push_str("/from-own-successor");
+                }
+            }
+            let next = std::mem::take(&mut cx.unsound);
+            if path.len() < 3 {
+                for (m2, s3) in &next {
+                    let q2 = q.apply(*m2);
+                    path.push(*m2);
+                    follow_unsound(cx, s3, &q2, ply, path, budget);
+                    path.pop();
+                }
+            }
+        }
+        Err(_) => cx.violate("C01", "C01/all-moves/panic/from-own-successor".into(), format!("generating from the engine's own successor of {} by {} panicked", q.fen(), path.last().map(|m| m.uci()).unwrap_or_default()), ply, path),
+    }
+}
+
 pub fn walk_game(cx: &mut Ctx, rng: &mut Rng) {
     let game = cx.game;
     let z = cx.z;
@@ -402,24 +437,13 @@ pub fn walk_game(cx: &mut Ctx, rng: &mut Rng) {
         // real position.
         let unsound = std::mem::take(&mut cx.unsound);
         if cx.judge.c01 {
+            // (a wrong field may only matter some plies later - e.g. an en-passant target that
+            // survives two promotions - so the engine's own chain is followed while it stays
+            // unsound, three plies at most)
+            let mut budget = 48u32;
             for (m, s) in &unsound {
                 let q = p.apply(*m);
-                cx.acc.count("c01_generations_from_unsound_own_successor");
-                let z2 = z;
-                let r = std::panic::catch_unwind(std::panic::AssertUnwindSafe(|| generate_moves(s, MoveGenerationMode::AllMoves, z2)));
-                match r {
-                    Ok(s2) => {
-                        let before = cx.acc.violations.len();
-                        check_generation(cx, s, &q, &s2, false, ply, &[*m]);
-                        // mark the class: these only arise below a wrong successor
-                        for v in cx.acc.violations.iter_mut().skip(before) {
-                            if !v.sig.ends_with("/from-own-successor") {
-                                v.sig.push_str("/from-own-successor");
-                            }
-                        }
-                    }
-                    Err(_) => cx.violate("C01", "C01/all-moves/panic/from-own-successor".into(), format!("generating from the engine's own successor of {} by {} panicked", p.fen(), m.uci()), ply, &[*m]),
-                }
+                follow_unsound(cx, s, &q, ply, &mut vec![*m], &mut budget);
             }
         }
         if cx.judge.c01 || cx.judge.c02 || cx.judge.c05 {
@@ -538,6 +562,28 @@ pub fn walk_game(cx: &mut Ctx, rng: &mut Rng) {
                     }
                     if is_special(&p, *m) {
                         cx.acc.nontrivial.insert(fnv(ch, m.uci().as_bytes()));
+                    }
+                }
+            }
+            if cx.judge.c04 && sound.len() != succ.len() && diff_board(bt_ref, &p).is_none() {
+                // successors the referee does not accept as they stand (wrong name or wrong
+                // position: C01/C02's business) still fall under "printed and replayed, every
+                // generated move reproduces its own successor"
+                for s in &succ {
+                    if sound.iter().any(|(_, t)| t.zobrist_key == s.zobrist_key && t.last_move == s.last_move && t.pawn_promotion == s.pawn_promotion) {
+                        continue;
+                    }
+                    let text = descriptor_text(s);
+                    if text.len() < 4 {
+                        continue;
+                    }
+                    let mut c = bt_ref.clone();
+                    let ok = std::panic::catch_unwind(std::panic::AssertUnwindSafe(|| verif_make_move(&mut c, &text, z)));
+                    cx.acc.count("c04_round_trips_of_unsound_successors");
+                    if ok.is_err() {
+                        cx.violate("C04", "C04/round-trip/panic/own-successor".into(), format!("replaying generated move {} on {} panicked", text, p.fen()), ply, &[]);
+                    } else if let Some(d) = diff_board(&c, &to_pos(s)) {
+                        cx.violate("C04", format!("C04/round-trip/own-successor/{}", diff_class(&d)), format!("generated move printed as {} and replayed on {} does not reproduce the generator's own successor: {}", text, p.fen(), d), ply, &[]);
                     }
                 }
             }
